@@ -126,8 +126,8 @@ func (s *compositeSchedule) Left() int {
 		s.rwMu.Unlock()
 		return s.Left()
 	}
-	if left < 0 {
-		return -1
+	if left < 0 || leftAfter < 0 {
+		return -1 // leftAfter is unknown, while some next schedule is not finished.
 	}
 	return left + leftAfter
 }
